@@ -196,6 +196,48 @@ CHECKS['C16'] = dict(
     technique='machine-checked finite-domain proof (Coq) over skeletons regenerated from the source + differential execution on the six classes',
 )
 
+CHECKS['C11'] = dict(
+    text=('Proof over the session model of RemoteServer.run (Server/Model.v, pinned to the source): for every sequence of client sessions - each a '
+          'request kind with the point at which the client vanishes (nothing sent, header cut, payload cut, garbage, control connection never opened, '
+          'complete) - the server is still up, a session that is not completed leaves the whole server state (children of other clients, context '
+          'table) unchanged, and the next well-formed request is served. The REAL server process is attacked with recorded well-formed byte streams '
+          'of five request kinds cut at byte offsets (every offset in the thorough tier) and ended with FIN or RST, garbage headers and payloads, a '
+          'client that never opens the control connection; after every fault a well-formed request must be answered, regularly a full RemoteWorker '
+          'round trip, and a healthy client\'s persistent worker started before the faults must still work. Sessions and replies are replayed '
+          'through the model inside Coq.'),
+    design='5/C11',
+    note=('The model is hand-written (tie: source pin of RemoteServer.run + the session correspondence). Kernel TCP behaviour is an assumption; a '
+          'client that stays silent without closing is outside the property. ' + COMMON_NOTE),
+    technique='machine-checked proof (Coq) by induction over session sequences + differential correspondence with a real server under scripted faulty clients',
+)
+
+CHECKS['C18'] = dict(
+    text=('Proof over the same server model: creating an id that exists is refused and changes nothing about the existing one, creating a free id '
+          'registers it, deleting frees the id and leaves every other id alone (also for unknown ids), a worker request naming an unknown context is '
+          'answered by closing and changes nothing, the server survives every history. Histories over three ids of create / duplicate create / '
+          'delete / delete unknown / worker in context / worker in unknown context run through the REAL RemoteContext and PersistentRemoteWorker API '
+          'on a fresh server each; replies and the table of registered ids are compared with the model, a call in each context checks that the '
+          'worker runs the context\'s target with the context\'s defaults, and after deleting every context the server must have no child process left.'),
+    design='5/C18',
+    note=('"Deleting a context ends its workers" is observed on the process tree only (the helper process is not modelled beyond a handle). ' + COMMON_NOTE),
+    technique='machine-checked proof (Coq) over a server state machine + differential correspondence of context histories through the real client API',
+)
+
+CHECKS['C20'] = dict(
+    text=('Proof. The shapes of RemoteWorker._start and _run_frontend are regenerated from the source (which statements of the handshake can fail, '
+          'whether the enclosing try sets the start-up event and stores the error, how the constructor waits, whether it re-raises) and proved to '
+          'refine the specification on every vector of step outcomes: whatever step fails the constructor raises, it never waits for an event nobody '
+          'sets and never returns a worker whose handshake failed; thread and process constructors wait for the identity OR the death of the child. '
+          'That a server message cut at any byte offset makes the receive step fail comes from the regenerated recv_msg (C10). The REAL constructors '
+          'run against a scripted server that cuts either handshake message at byte offsets (all in the thorough tier) with FIN or RST, refuses the '
+          'control connection or is absent, against a real server with an unknown context id, and with thread/process children that die at the very '
+          'start - each under a 10 s hang bound.'),
+    design='5/C20',
+    note=('A server that accepts and then stays silent for ever without closing is outside the property (no failure is observable). The semantics of '
+          'the shapes (Server/Handshake.v) is hand-written. ' + COMMON_NOTE),
+    technique='machine-checked finite-domain proof (Coq) over start-up shapes regenerated from the source + real constructors against a scripted server',
+)
+
 NOT_YET = {}
 
 
